@@ -3,7 +3,12 @@
   differential test for C02.
     body_c02_add name upd arg        -> as c02_add of Driver/Encode.lean: what an empty component holds under the name
                                         after add(name, arg, parameters=upd)
-    body_c02_add_twice name upd arg  -> the same after the call was made twice (the accumulate-into-a-list rule)
+    body_c02_add_twice name upd upd2 arg -> the same after a second call with the parameters upd2 (the accumulate-into-a-list
+                                        rule; the two stored values differ in their parameters, so their order shows)
+    body_c02_encode name upd arg     -> "one" TAB value: what Component._encode(name, arg, upd) returns for one object (the
+                                        translated `_encode` alone; `add` calls it too)
+    body_c02_dddlists arg            -> "one" TAB value: the object vDDDLists(arg) (its parameters from the translated
+                                        `__init__`, its text from the wrapped objects), or err:<E>
   The pieces are those of ICal/Model/AddPieces.lean.
 -/
 import ICal.Driver.Encode
@@ -34,13 +39,36 @@ def handleBodiesAdd (op : String) (args : List String) : Option String :=
       | .ok props => some (showEntry props (decStr name))
       | .error e => some (excAdd e)
     | _, _ => some "bad-args"
-  | "body_c02_add_twice", [name, upd, arg] =>
-    match whole tUpd upd, whole tArg arg with
-    | some u, some a =>
-      match Bodies.componentAddP [] (decStr name) a u >>= fun p => Bodies.componentAddP p (decStr name) a u with
+  | "body_c02_add_twice", [name, upd, upd2, arg] =>
+    match whole tUpd upd, whole tUpd upd2, whole tArg arg with
+    | some u, some u2, some a =>
+      match Bodies.componentAddP [] (decStr name) a u >>= fun p => Bodies.componentAddP p (decStr name) a u2 with
       | .ok props => some (showEntry props (decStr name))
       | .error e => some (excAdd e)
+    | _, _, _ => some "bad-args"
+  | "body_c02_encode", [name, upd, arg] =>
+    match whole tUpd upd, whole tArg arg with
+    | some u, some (.one v) =>
+      match Bodies.encodeOneP (decStr name) v u with
+      | .ok o => some ("one\t" ++ encVal o.val)
+      | .error e => some (excAdd e)
     | _, _ => some "bad-args"
+  | "body_c02_dddlists", [arg] =>
+    match whole tArg arg with
+    | some a =>
+      -- what the constructor iterates over is the model's `listElems` (a tuple is iterated, a str gives its characters ..)
+      match listElems a with
+      | .error .unmodelled => some "unmodelled"
+      | .error .valueError => some "err:ValueError"
+      | .error .typeError => some "err:TypeError"
+      | .ok xs =>
+        let l : PyOneMany PyVal := match a with
+          | .one (.atom x) => .one (.atom x)
+          | _ => .many xs
+        match Bodies.dddListsInitP l with
+        | .ok (ps, dts) => some ("one\t" ++ encVal ⟨cDDDLists, listText dts, ps⟩)
+        | .error e => some (excAdd e)
+    | none => some "bad-args"
   | _, _ => none
 
 end ICal.Driver
